@@ -18,6 +18,9 @@ Next == /\ l <= Len(Trace)
            \* the public entry point of a running node answers what the worker's function answers
            /\ Chk(e.result_main \in {"", e.result}, "c02_main_loop_entry_point_answers_differently")
            /\ Chk(e.result_main = "ok" => valid, "c02_accepted_invalid_proof")
+           \* the answer is a function of the arguments: a node that has just validated genuine proofs of this height answers the same
+           /\ Chk(e.result_warm = e.result, "c02_answer_depends_on_proofs_validated_earlier")
+           /\ Chk(e.result_warm = "ok" => valid, "c02_accepted_invalid_proof")
            \* "that height's committee": the membership was asked with the reference time of the PREVIOUS block
            /\ Chk(e.wrong_epoch = 0, "c02_committee_of_another_reference_time")
            \* ... and for the height of the block being validated
